@@ -12,6 +12,7 @@ func init() {
 	spaces["sflow.grec"] = func(t string) mck.Space { return sfRecGrammar(t) }
 	spaces["sflow.graw"] = func(t string) mck.Space { return sfRawGrammar(t) }
 	spaces["sflow.ghdr"] = func(t string) mck.Space { return sfHdrGrammar(t) }
+	spaces["sflow.dense"] = func(t string) mck.Space { return sfDense(t) }
 	spaces["sflow.mutate"] = func(t string) mck.Space { return mutateSpace(pSFlow, sfSeeds(), t) }
 }
 
@@ -115,20 +116,27 @@ func sfRawGrammar(tier string) mck.Space {
 		hls = append(hls, l)
 	}
 	hls = append(hls, 1498, 1499, 1500, 1501, 1502, 1503, 0x7fffffff, 0xffffffff)
-	etypes := []uint16{0x0800, 0x86dd, 0x8100, 0x0806, 0}
+	// 0xa0xx: stacked VLAN tags (the TPIDs listed in tagStacks), the payload ethertype follows the last tag
+	etypes := []uint16{0x0800, 0x86dd, 0x8100, 0x0806, 0, 0x88a8, 0xa001, 0xa002, 0xa003, 0xa004}
+	tagStacks := map[uint16][]uint16{0x8100: {0x8100}, 0x88a8: {0x88a8}, 0xa001: {0x8100, 0x8100}, 0xa002: {0x88a8, 0x8100}, 0xa003: {0x88a8, 0x8100, 0x8100}, 0xa004: {0x9100, 0x8100}}
 	l4s := []uint8{6, 17, 1, 58, 0}
 	ihls := []uint8{0x45, 0x40, 0x4f, 0x46}
 	dims := mck.Radix{uint64(len(protos)), uint64(len(hls)), uint64(len(etypes)), uint64(len(l4s)), uint64(len(ihls)), 2}
 	return dgSpace{n: dims.Size(), gen: func(idx uint64) *dgram {
 		d := dims.Digits(idx)
 		proto, hl, et, l4, ihl := protos[d[0]], hls[d[1]], etypes[d[2]], l4s[d[3]], ihls[d[4]]
-		v6 := et == 0x86dd || (et == 0x8100 && d[5] == 1) || proto == 12
+		stack := tagStacks[et]
+		v6 := et == 0x86dd || (stack != nil && d[5] == 1) || proto == 12
 		f := &ref.W{}
 		if proto != 11 && proto != 12 {
 			f.Bytes([]byte{2, 0, 0, 0, 0, 1, 2, 0, 0, 0, 0, 2})
-			f.U16(et)
-			if et == 0x8100 {
-				f.U16(0x2064)
+			if stack == nil {
+				f.U16(et)
+			} else {
+				for ti, tpid := range stack {
+					f.U16(tpid)
+					f.U16(0x2064 + uint16(ti))
+				}
 				if d[5] == 1 {
 					f.U16(0x86dd)
 				} else {
@@ -232,4 +240,61 @@ func sfSeeds() []seed {
 	mk("counters", sfh.CounterSample(0, sfh.Rec("gen", 0), sfh.Rec("eth", 0)), sfh.CounterSample(0, sfh.Rec("tr", 0), sfh.Rec("vg", 0), sfh.Rec("vlan", 0), sfh.Rec("proc", 0)))
 	mk("mixed", sfh.UnknownSample(3, 8), sfh.FlowSample(0, sfh.Rec("raw", 0)), sfh.UnknownSample(4413<<12|1, 8), sfh.CounterSample(0, sfh.Rec("gen", 0)))
 	return out
+}
+
+// sfDense: large datagrams of minimal samples - thousands of empty unknown samples (8 octets), empty flow
+// samples, empty counter samples, and flow samples holding many empty unknown records.
+func sfDense(tier string) mck.Space {
+	ns := []int{64, 1000, 4000, 8000}
+	kinds := []string{"empty unknown samples", "empty flow samples", "empty counter samples", "one flow sample with N empty unknown records", "alternating"}
+	dims := mck.Radix{uint64(len(kinds)), uint64(len(ns)), 2}
+	return dgSpace{n: dims.Size(), gen: func(idx uint64) *dgram {
+		d := dims.Digits(idx)
+		n := ns[d[1]]
+		unk := func(w *ref.W) { w.U32(9); w.U32(0) }
+		flow := func(w *ref.W, nrec int, recs []byte) {
+			w.U32(1)
+			w.U32(uint32(32 + len(recs)))
+			w.U32(7)
+			w.U32(0x02000001)
+			for i := 0; i < 5; i++ {
+				w.U32(uint32(i + 1))
+			}
+			w.U32(uint32(nrec))
+			w.Bytes(recs)
+		}
+		ctr := func(w *ref.W) { w.U32(2); w.U32(12); w.U32(7); w.U32(0x02000001); w.U32(0) }
+		body := &ref.W{}
+		count := 0
+		switch d[0] {
+		case 3:
+			recs := &ref.W{}
+			for i := 0; i < n && len(recs.B) < 60000; i++ {
+				recs.U32(2000 + uint32(i%5))
+				recs.U32(0)
+			}
+			flow(body, len(recs.B)/8, recs.B)
+			count = 1
+		default:
+			for i := 0; i < n && len(body.B) < 60000; i++ {
+				k := d[0]
+				if k == 4 {
+					k = i % 3
+				}
+				switch k {
+				case 0:
+					unk(body)
+				case 1:
+					flow(body, 0, nil)
+				case 2:
+					ctr(body)
+				}
+				count++
+			}
+		}
+		w := &ref.W{}
+		sfHeader(w, 5, uint32(1+d[2]), uint32(count))
+		w.Bytes(body.B)
+		return &dgram{proto: pSFlow, addr: addrs[0], wire: w.B, class: fmt.Sprintf("sflow:dense:%d x %s", n, kinds[d[0]]), sig: "sflow:dense"}
+	}}
 }
